@@ -19,12 +19,18 @@ type predGen struct {
 func newPredGen(r *Rng, init []KV) *predGen {
 	pg := &predGen{r: r}
 	for _, kv := range init {
-		if isASCIIPlain(kv.K) {
+		if isQuotable(kv.K) {
 			pg.keys = append(pg.keys, kv.K)
 		}
 	}
 	pg.keys = append(pg.keys, "a", "ab", "k", "k0", "k00", "k01", "k005", "k010", "m", "zz", "nokey", "")
 	return pg
+}
+
+// isQuotable: can be written between single quotes in a statement (the lexer
+// is byte-oriented and has no escapes).
+func isQuotable(s string) bool {
+	return !strings.ContainsAny(s, "'\"`")
 }
 
 func (g *predGen) lit() string {
@@ -139,6 +145,9 @@ func topPred(g *predGen) string {
 	if g.r.Chance(0.01) {
 		// a long chain: many disjuncts (or conjuncts), one of them compound
 		n := g.r.Range(17, 24)
+		if g.r.Chance(0.3) {
+			n = pick(g.r, []int{66, 70, 130, 300}) // deeper than any fixed-size stack or recursion guard
+		}
 		op := pick(g.r, []string{" | ", " or ", " | ", " & "})
 		parts := make([]string, n)
 		pointOnly := g.r.Bool() // only equalities / IN lists: the whole clause pins a literal key set
